@@ -1272,8 +1272,9 @@ MANIFEST = {
             "signature / other-kind rejection, every proper record prefix is an error (also for edge-less graphs). Tied to libompl by "
             "line-by-line differential runs of the real code against the compiled model, an independent Python specification evaluated on "
             "the implementation's outputs, an exhaustive byte-level truncation sweep of the real loaders, and StateSpace.cpp/StateStorage.cpp "
-            "compiled into the harness under ASan/UBSan/vptr/LSan. Open findings are proved as kernel-checked witnesses (F31, F32) and the "
-            "model also carries the repaired variant of F32, selected per run by probing the code under test.",
+            "compiled into the harness under ASan/UBSan/vptr/LSan. The open finding F31 and the repaired F29/F32 are kept as kernel-checked witnesses about the old code; the model "
+            "follows the repaired code (wrapper = opaque leaf, F32; sorted goal list, F29) and keeps the pre-repair variant only as the "
+            "detection path of a probe that turns a reverted repair into a VIOLATION.",
     "covers": "modelled+proved: serialize/deserialize/serLen/copyState/cloneState, addrAtIndex, valueLocations(+repaired variant), reals round "
               "trip, csd/csdNames state and result code, commonSubspaces, signature shape, storeStates/loadStates, storeGraph/loadGraph, "
               "PlannerData add/mark/remove invariants, binary search; compared only: equalStates of copies, boost byte framing (enumerated), "
@@ -1282,6 +1283,6 @@ MANIFEST = {
     "note": "Trusted: Lean kernel, the three standard axioms, the hand-written model outside the scripts the correspondence explored, the "
             "harness (own typed state walk; global operator new/delete replaced by malloc/free wrappers so that an absurd allocation throws "
             "std::bad_alloc under ASan), boost::archive framing (enumerated, not modelled). Spaces with equal names are assumed structurally "
-            "equal; names are unique within a space. Known findings: F31, F32, F33, F105, F106 (F29, F30 fixed).",
+            "equal; names are unique within a space. Known findings: F31, F33, F105 (and F107, probe only); fixed: F29, F30, F32, F106.",
     "technique": "Lean 4 proof (mutual structural induction over the space tree) + differential correspondence + byte-level fault enumeration",
 }
